@@ -246,6 +246,16 @@ def frame_snapshot(obj):
 def check_frame(case):
     del _KEEP[:]
     obj = call('construct', make_frame, case)
+    if case.get('late') and case['kind'] == 'header':
+        # the same values, but assigned attribute by attribute after construction
+        from pbt.lib import commands, header
+        props = commands.Basic.Properties()
+        for k, v in case['props'].items():
+            setattr(props, k, v)
+        obj = header.ContentHeader(0, case['body_size'], props)
+    elif case.get('late') and case['kind'] == 'method':
+        for k, v in case['args'].items():
+            setattr(obj, k, v)
     before = frame_snapshot(obj)
     ch = case['ch']
     a = call('marshal', frame.marshal, obj, ch)
@@ -291,7 +301,7 @@ def frame_cases(tier):
             'args': S.method_args(d, table_leaves=10, big=False), 'perm': perm}))
     hdr = st.fixed_dictionaries({
         'kind': st.just('header'), 'ch': S.CHANNELS, 'body_size': S.BODY_SIZES,
-        'props': S.property_sets(), 'perm': perm})
+        'props': S.property_sets(), 'perm': perm, 'late': st.booleans()})
     other = S.any_frame_cases(big_bodies=False)
     return st.one_of(meth, meth, hdr, other)
 
